@@ -16,6 +16,8 @@ from concurrent.futures import ThreadPoolExecutor
 import common
 import genprog
 import probes
+import c01core
+import c01sweeps
 from common import log
 
 PID = "C01"
@@ -205,13 +207,21 @@ def run(chk, rebaseline=False):
         "the generated-program stream uses fixed PRNG seeds (not VERIF_SEED): a new seed can expose one of the many unlisted library "
         "deviations of the pinned tree, which would make the check raise an alarm on the unchanged tree",
     ]
-    chk.prove(["theories/Lang/Properties.vo", "theories/Lang/OpsExec.vo"], ["theories/Lang/Properties.v"])
+    chk.prove(["theories/Lang/Properties.vo", "theories/Lang/OpsExec.vo", "theories/Lang/CoreProperties.vo", "theories/Lang/CoreExec.vo"],
+              ["theories/Lang/Properties.v", "theories/Lang/CoreProperties.v"])
     ok, out, chk.th = common.build_harness("debug")
     if not ok:
         chk.proof_breaks.append("harness does not build against /repo: " + out[-800:])
         return chk.finish()
     known = load_known()
     stats = {"operator_cases": 0, "probes": 0, "programs": 0, "disagreements": 0, "known_probe_deviations": 0, "known_program_deviations": 0}
+
+    # ---- stream M2: the compiled core: compiler output and outcome vs Lang/Core*.v vs node ----
+    if chk.replay and "model_term" in json.load(open(chk.replay)):
+        c01core.run(chk, chk.th, stats)
+        return chk.finish()
+    if not chk.replay:
+        c01core.run(chk, chk.th, stats)
 
     # ---- stream A: operators on primitives: tsrun vs model vs node -----------------
     prims = probes.PRIMS
@@ -287,6 +297,52 @@ def run(chk, rebaseline=False):
     if repaired:
         chk.stale_known.append("probes listed as deviating that now agree with the reference: %s" % ", ".join(repaired[:20]))
 
+    # ---- stream S: exhaustive argument sweeps vs node -----------------------------------
+    known.setdefault("sweeps", {})
+    snames = sorted(c01sweeps.S)
+    sprogs = [("s:" + n, "", c01sweeps.S[n]) for n in snames]
+    sres = common.run_programs(chk.th, sprogs, tag="c01s", timeout=1800)
+    with ThreadPoolExecutor(8) as ex:
+        snode = list(ex.map(lambda x: node_eval(x[2], "sw%d" % abs(hash(x[0]))), sprogs))
+    sweep_now = {}
+    stats["sweep_items"] = 0
+    for n, nd in zip(snames, snode):
+        t = sres.get("s:" + n, {})
+        if nd.get("status") == "unavailable":
+            raise common.FrameworkError("node is required for C01")
+        tv = t.get("value", "")[4:] if t.get("status") == "complete" else "<%s %s>" % (t.get("status"), t.get("class"))
+        nv = nd.get("value") if nd.get("status") == "complete" else "<%s %s>" % (nd.get("status"), nd.get("class"))
+        a, b = tv.split(";"), str(nv).split(";")
+        stats["sweep_items"] += len(b)
+        dev = {}
+        if len(a) != len(b):
+            dev["whole"] = [tv[:200], str(nv)[:200]]
+        else:
+            for i, (x, y) in enumerate(zip(a, b)):
+                if x != y:
+                    dev[str(i)] = [x[:120], y[:120]]
+        sweep_now[n] = dev
+    if rebaseline or os.environ.get("C01_REBASELINE_SWEEPS"):
+        known["sweeps"] = {n: d for n, d in sweep_now.items() if d}
+        if not rebaseline:
+            json.dump(known, open(os.path.join(common.CORPUS, PID, "known_deviations.json"), "w"), indent=1, sort_keys=True)
+    sweeps_known_hit = False
+    for n in snames:
+        base = known["sweeps"].get(n, {})
+        for i, (x, y) in sorted(sweep_now[n].items()):
+            if i in base:
+                sweeps_known_hit = True
+                stats["known_probe_deviations"] += 1
+                continue
+            stats["disagreements"] += 1
+            if len(chk.violations) < 10:
+                chk.violation({"sweep": n, "item": i, "program": c01sweeps.S[n], "tsrun": x, "reference": y,
+                               "what": "item %s of the argument sweep (tuples in the order of the nested loops of the program) differs from the "
+                                       "reference engine and is not in the known-deviation list" % i})
+        gone = [i for i in base if i not in sweep_now[n]]
+        if gone:
+            chk.stale_known.append("sweep %s: items listed as deviating that now agree: %s" % (n, ", ".join(gone[:12])))
+
     # ---- stream C: generated programs (fixed seeds) vs node ---------------------------
     n_prog = 300 if chk.tier == "quick" else 3000
     progs, feats = [], {}
@@ -328,6 +384,12 @@ def run(chk, rebaseline=False):
             groups.setdefault(g, []).append(k)
     for e in chk.known:
         g = e["class"].split("-", 1)[1] if "-" in e["class"] else e["class"]
+        if e["class"] == "L-Sweeps":
+            if sweeps_known_hit:
+                chk.known_finding(e)
+            else:
+                chk.stale_known.append("L-Sweeps did not reproduce")
+            continue
         if e["class"] == "P-programs":
             if any(s in devp for s in known["programs"]):
                 chk.known_finding(e)
@@ -345,5 +407,8 @@ def run(chk, rebaseline=False):
         "operator_cases": stats["operator_cases"], "probes": stats["probes"], "programs": stats["programs"],
         "known_probe_deviations": stats["known_probe_deviations"], "known_program_deviations": stats["known_program_deviations"],
         "generator_features": feats, "disagreements": stats["disagreements"],
+        "sweeps": len(c01sweeps.S), "sweep_items": stats.get("sweep_items", 0),
+        "core_programs": stats.get("core_programs", 0), "core_instructions_compared": stats.get("core_instructions", 0),
+        "core_value_outcomes": stats.get("core_value", 0), "core_error_outcomes": stats.get("core_error", 0),
     })
     return chk.finish()
